@@ -203,6 +203,17 @@ pub fn c10(tier: &str, seed: u64) -> Vec<Case> {
         if class_of(&out) != "ok" { c = c.fail("isdn-without-subaddress", "an ISDN record without the optional sub-address (RFC 1183 3.2) is rejected".into()); }
         v.push(c);
     }
+    // RFC 1706 5: the NSAP RDATA is "a variable length string of octets containing the NSAP", at most 20 octets; the
+    // library reads the fixed 20-octet GOSIP layout only
+    for n in [1usize, 13, 19] {
+        let mut b = vec![0u8, 1, 0x80, 0, 0, 0, 0, 1, 0, 0, 0, 0, 1, b't', 0, 0, 22, 0, 1, 0, 0, 0, 5, 0, n as u8];
+        b.push(0x47);
+        b.extend(std::iter::repeat(0x11u8).take(n - 1));
+        let out = parse_out(&b);
+        let mut c = Case::new(format!("parse {}", text::hex(&b)), out.clone()).tag("nsap-short");
+        if class_of(&out) != "ok" { c = c.fail("nsap-variable-length", format!("an NSAP record of {} octets (RFC 1706 5: variable length, at most 20) is rejected", n)); }
+        v.push(c);
+    }
     svcb_builder(thorough, seed, &mut v);
     v
 }
